@@ -596,7 +596,45 @@ def c08_extra(tier, seed, lean):
     return res
 
 
+def c01_extra(tier, seed, lean):
+    """the thin public wrappers (initializer_list overloads, generator constructor, emplace with arguments, front/back/at,
+    cross-capacity constructors / assign / append, operator= (il)) against std::vector: harness/wrappers.cpp, monitor only"""
+    res = dict(corr=[], w=[], evaluations=0, cases=0, distinct=0, samples=[], info={})
+    src = os.path.join(vlib.VERIF, 'harness', 'wrappers.cpp')
+    d = os.path.join(vlib.CACHE, 'c01w', vlib.sha(vlib.repo_fingerprint(), vlib.file_sha([src]))[:16])
+    os.makedirs(d, exist_ok=True)
+    builds = [('g++', 'c++17')] if tier == 'quick' else [('g++', 'c++11'), ('g++', 'c++14'), ('g++', 'c++17'), ('g++', 'c++20'), ('clang++', 'c++17')]
+    inc = '-I' + os.path.join(vlib.REPO, 'source/include')
+    checks = {}
+    for cxx, std in builds:
+        if not toolchain_ok(cxx, std)[0]:
+            continue
+        key = cxx.replace('+', 'p') + '_' + std.replace('+', 'p')
+        exe = os.path.join(d, 'wrappers_' + key)
+        if not os.path.exists(exe):
+            rc, out = vlib.run([cxx, '-std=' + std, '-O1', '-g', '-fsanitize=address,undefined', '-fno-sanitize-recover=all', inc, src, '-o', exe], timeout=900)
+            if rc != 0:
+                first = [l for l in out.split('\n') if 'error' in l][:2]
+                res['w'].append(dict(msg='C01 a call that std::vector accepts no longer compiles (%s %s): %s' % (cxx, std, ' | '.join(first)[:500]),
+                                     op='harness/wrappers.cpp', config=key, case=[], impl=''))
+                continue
+        rc, out = vlib.run([exe], timeout=300, env=vlib.ASAN_ENV)
+        for l in out.split('\n'):
+            if l.startswith('W! '):
+                res['w'].append(dict(msg=l[3:] + ' (%s %s)' % (cxx, std), op='harness/wrappers.cpp', config=key, case=[], impl=''))
+            m = re.match(r'done (\d+)', l)
+            if m:
+                checks[key] = int(m.group(1))
+                res['evaluations'] += int(m.group(1))
+        if rc != 0 and key not in checks:
+            res['w'].append(dict(msg='C01 the wrapper monitor crashed (%s %s): %s' % (cxx, std, out[-400:]), op='harness/wrappers.cpp', config=key, case=[], impl=''))
+    res['cases'] = len(checks)
+    res['info'].update(c01_wrapper_checks=checks)
+    return res
+
+
 def register(EXTRA, EXTRA_SEARCH, PRE):
+    EXTRA['C01'] = c01_extra
     EXTRA['C08'] = c08_extra
     EXTRA['C20'] = c20_extra
     PRE['C20'] = c20_pre
